@@ -5,17 +5,14 @@
    tables of Engine.tables; the removal/creation cascades of useractions.py; the auto-removal loop of
    docmodel.py).  RefsResolve is the property's conjunction as one boolean.
 
-   Proved, for ALL modelled actions and with no hypothesis on update_summary_section other than the one below:
-   every bundle keeps the property (C09_cascade_preserves), hence every reachable state; every single action;
-   the auto-removal loop; removals with back-reference clearing leave no reference to a removed record.
-   RemoveColumn of group-by source columns is covered as the repaired code does it (commit e0ec788: the raw
-   section of the summary table is not regrouped; ae5ee6e: every field of a regrouped section is moved or
-   deleted); the witnesses of the two repaired defects are regression examples.
-
-   The one restriction left: the USER action UpdateSummaryViewSection applied to the raw section of a summary
-   table.  The code accepts it (doBulkUpdateRecord lets tableRef of such a section change), the summary table
-   then keeps a rawViewSectionRef to a section of another table: C09_full is still refuted (C09_refuted), by a
-   witness that fails on the engine too.  run_bundle_guarded is run_bundle with that one case excluded. *)
+   C09_full -- every bundle of modelled actions keeps the property -- is a theorem, with no side condition:
+   tables, columns (group-by source columns included), views, sections, fields, pages, display and rule helper
+   columns, new summary tables, UpdateSummaryViewSection, and the auto-removal loop at the end of the bundle.
+   Three defects of the snapshot were repaired on the way (e0ec788: doRemoveColumns regrouped the raw section
+   of a summary table; ae5ee6e: update_summary_section moved one field per column id; ea10a38:
+   UpdateSummaryViewSection accepted a raw section); their witnesses are the regression examples below.
+   Also proved: every single action, the auto-removal loop, all reachable states, and that removals with
+   back-reference clearing leave no reference to a removed record. *)
 From Coq Require Import ZArith List Bool.
 Import ListNotations.
 Require Import Grist.Model.MetaCascade Grist.Proofs.MetaCascade_main Grist.Proofs.MetaCascade_norefs.
@@ -24,41 +21,29 @@ Open Scope Z_scope.
 Fixpoint run_bundles (bs : list (list op)) (m : meta) : res meta :=
   match bs with [] => Ok m | b :: t => bind (run_bundle b m) (run_bundles t) end.
 
-(* AddTable T [A, B]; CreateViewSection(T, new view, group by B): table 2 = T_summary_B with raw section 4 and
+(* ---------------------------------------------------------------------------------------------- *)
+(* the property *)
+
+Definition C09_full : Prop :=
+  forall os m m', RefsResolve m = true -> run_bundle os m = Ok m' -> RefsResolve m' = true.
+
+Theorem C09_cascade_preserves : C09_full.
+Proof. exact run_bundle_preserves. Qed.
+
+(* all states reachable from InitNewDoc *)
+Theorem C09_reachable : forall m, reachable m -> RefsResolve m = true.
+Proof. exact reachable_resolve. Qed.
+
+(* ---------------------------------------------------------------------------------------------- *)
+(* regression examples: the witnesses of the three repaired defects on the repaired cascades.
+   AddTable T [A, B]; CreateViewSection(T, new view, group by B): table 2 = T_summary_B with raw section 4 and
    page section 5 *)
 Definition c09_setup : list (list op) :=
   [[OAddTable 1 [0; 0] true]; [OCreateSummary 1 0 [3] 2 [0] [2; 0]]].
 Definition c09_before : meta := match run_bundles c09_setup empty_meta with Ok m => m | _ => empty_meta end.
 
-(* ---------------------------------------------------------------------------------------------- *)
-(* the full statement, and its refutation on the faithful model *)
-
-Definition C09_full : Prop :=
-  forall os m m', RefsResolve m = true -> run_bundle os m = Ok m' -> RefsResolve m' = true.
-
-(* UpdateSummaryViewSection(4, []): the raw section of T_summary_B is moved to a new table T_summary; T_summary_B
-   stays (its page section 5 keeps it alive) with rawViewSectionRef = 4, a section of table 3 *)
-Definition c09_raw_bundle : list op := [ORegroup (mkRG 4 0 3 1 [] [] [2; 0] [] [(8, 8)] [])].
-Definition c09_raw_after : meta :=
-  match run_bundle c09_raw_bundle c09_before with Ok m => m | _ => empty_meta end.
-
-Example c09_witness_runs :
-  res_ok (run_bundles c09_setup empty_meta) = true /\ RefsResolve c09_before = true /\
-  res_ok (run_bundle c09_raw_bundle c09_before) = true /\ RefsResolve c09_raw_after = false /\
-  existsb (fun t => (t_id t =? 2) && (t_raw t =? 4)) (m_tables c09_raw_after) = true /\
-  existsb (fun s => (s_id s =? 4) && (s_table s =? 3)) (m_sections c09_raw_after) = true.
-Proof. vm_compute. repeat split; reflexivity. Qed.
-
-Theorem C09_refuted : ~ C09_full.
-Proof.
-  intro H. specialize (H c09_raw_bundle c09_before c09_raw_after).
-  assert (E : RefsResolve c09_raw_after = true).
-  { apply H; vm_compute; reflexivity. }
-  vm_compute in E. discriminate E.
-Qed.
-
-(* ---------------------------------------------------------------------------------------------- *)
-(* regression examples: the witnesses of the two repaired defects on the repaired cascades *)
+Example c09_setup_runs : res_ok (run_bundles c09_setup empty_meta) = true /\ RefsResolve c09_before = true.
+Proof. vm_compute. split; reflexivity. Qed.
 
 (* [RemoveColumn T.B, AddColumn T_summary_B.Y]: only the page section 5 is regrouped; the column and its field
    in the raw section 4 go away with T_summary_B at the end of the bundle *)
@@ -68,9 +53,9 @@ Example c09_regression_raw_section :
   | _ => false
   end = true /\
   (* what the unrepaired doRemoveColumns did, regrouping the raw section 4 as well, is not a run of the model *)
-  res_unmodelled (run_bundle [ORemoveColumnsG [3] [mkRG 4 0 3 1 [] [] [2; 0] [] [(8, 8)] [];
-                                                   mkRG 5 3 0 1 [] [] [] [] [(10, 8)] []]; OAddColumn 2 0 0]
-                             c09_before) = true.
+  res_ok (run_bundle [ORemoveColumnsG [3] [mkRG 4 0 3 1 [] [] [2; 0] [] [(8, 8)] [];
+                                           mkRG 5 3 0 1 [] [] [] [] [(10, 8)] []]; OAddColumn 2 0 0]
+                     c09_before) = false.
 Proof. vm_compute. split; reflexivity. Qed.
 
 (* section 5 shows column 6 twice (fields 10 and 11): both fields are moved *)
@@ -81,50 +66,29 @@ Example c09_regression_duplicate_field :
   end = true.
 Proof. vm_compute. reflexivity. Qed.
 
-(* ---------------------------------------------------------------------------------------------- *)
-(* what holds.  run_bundle_guarded: all modelled actions; UpdateSummaryViewSection as a user action only on
-   sections that are not raw sections.  It is run_bundle wherever it is defined. *)
-
-Theorem C09_cascade_preserves : forall os m m',
-  RefsResolve m = true -> run_bundle_guarded os m = Ok m' -> RefsResolve m' = true.
-Proof. exact run_bundle_guarded_preserves. Qed.
-
-Theorem C09_guarded_is_faithful : forall os m m', run_bundle_guarded os m = Ok m' -> run_bundle os m = Ok m'.
-Proof. exact run_bundle_guarded_agrees. Qed.
-
-Theorem C09_reachable_guarded : forall m, reachable_g m -> RefsResolve m = true.
-Proof. exact reachable_g_resolve. Qed.
-
-(* the restriction excludes the witness and nothing else of it: the same action on the page section is fine *)
-Example c09_guard_examples :
-  res_unmodelled (run_bundle_guarded c09_raw_bundle c09_before) = true /\
-  match run_bundle_guarded [ORegroup (mkRG 5 0 3 1 [] [] [2; 0] [] [(10, 8)] [])] c09_before with
+(* UpdateSummaryViewSection(4, []) on the raw section of T_summary_B is refused: the bundle fails; on the page
+   section 5 it regroups, and T_summary_B, left with its raw section only, is auto-removed *)
+Example c09_regression_update_raw_section :
+  match run_bundle [ORegroup (mkRG 4 0 3 1 [] [] [2; 0] [] [(8, 8)] [])] c09_before with
+  | Fail => true | _ => false end = true /\
+  match run_bundle [ORegroup (mkRG 5 0 3 1 [] [] [2; 0] [] [(10, 8)] [])] c09_before with
   | Ok m => RefsResolve m && negb (mem 2 (tids m)) && mem 3 (tids m)
   | _ => false
   end = true.
 Proof. vm_compute. split; reflexivity. Qed.
 
-(* with no restriction at all: every bundle without the user action UpdateSummaryViewSection (RemoveColumn of
-   group-by source columns included) *)
-
-Theorem C09_cascade_preserves_partial : forall os m m',
-  no_regroups os = true -> RefsResolve m = true -> run_bundle os m = Ok m' -> RefsResolve m' = true.
-Proof. exact run_bundle_preserves. Qed.
-
+(* ---------------------------------------------------------------------------------------------- *)
+(* parts *)
 (* a single modelled action keeps every reference resolvable (unused helper columns are only collected at the
    end of the bundle, so the helper-usage conjunct is not part of this one) *)
 Theorem C09_step_preserves : forall o m m',
-  regroups_op o = false -> refs_core m = true -> step o m = Ok m' -> refs_core m' = true.
+  refs_core m = true -> step o m = Ok m' -> refs_core m' = true.
 Proof. exact step_preserves_core. Qed.
 
 (* the auto-removal loop ends in a state where, moreover, every helper column has a user *)
 Theorem C09_auto_removes_resolve : forall fuel m m',
   refs_core m = true -> auto_fix fuel m = Ok m' -> RefsResolve m' = true.
 Proof. exact auto_fix_resolves. Qed.
-
-(* all states reachable from InitNewDoc by such bundles *)
-Theorem C09_reachable : forall m, reachable m -> RefsResolve m = true.
-Proof. exact reachable_resolve. Qed.
 
 (* non-vacuity: a concrete history (tables, a summary table, views, sections, display and rule helper columns,
    removals that trigger the cascades and the auto-removal of helper columns and of the summary table) *)
@@ -146,8 +110,6 @@ Example c09_example_runs :
   end = true.
 Proof. vm_compute. reflexivity. Qed.
 
-Example c09_example_hyps : forallb no_regroups c09_example = true.
-Proof. vm_compute. reflexivity. Qed.
 
 (* ---------------------------------------------------------------------------------------------- *)
 (* removing records and clearing back-references leaves no reference to a removed id (0 = no reference),
